@@ -54,6 +54,15 @@ def read_source_constants():
     out['coef'] = lst('_fwhm_poly_coeff_gauss') + lst('_fwhm_poly_coeff_lorentz') + lst('_weight_poly_coeff')
     m = re.search(r'fwhm_lorentz_to_total < ([0-9.eE+-]+):', st), re.search(r'fwhm_lorentz_to_total > ([0-9.eE+-]+):', st)
     out['thr'] = [float(m[0].group(1)), float(m[1].group(1))]
+    # which bin integral add_lorentzian_line uses: the shipped quadrature or the closed form of notes/fixes/C02-1.diff
+    body = st[st.index('cpdef Spectrum add_lorentzian_line'):st.index('cdef class StarkBroadenedLine')]
+    code = '\n'.join(l for l in body.split('\n') if not l.strip().startswith('#'))
+    if 'integrator.evaluate(lower_wavelength, upper_wavelength)' in code:
+        out['lorentz_variant'] = 'quad'
+    elif '_stark_cumulative(' in code:
+        out['lorentz_variant'] = 'cdf'
+    else:
+        out['lorentz_variant'] = 'unknown'
     c = _src('cherab/core/utility/constants.pyx')
 
     def const(name):
@@ -481,6 +490,25 @@ def stream_edges(run):
                         'dyadic window: Sigma*delta=%r, R x fraction=%r' % (sum(impl) * dl, R * fr), desc, 'gl-edge-integral', (wl, sg, mn, dl, bins))
 
 
+def stark_cumulative(x, x0, hw):
+    """closed-form signed integral of 1/(1+|u|^2.5) from 0 to (x-x0)/hw (what the patched code evaluates)"""
+    from scipy.special import hyp2f1
+    u = abs(x - x0) / hw
+    v = u * float(hyp2f1(0.4, 1.0, 1.4, -u ** 2.5))
+    return v if x >= x0 else -v
+
+
+def gtable(wl, fw, mn, dl, bins, cut):
+    """(x, cumulative) for every abscissa the post-fix model can ask for: bin edges and the two cut-offs"""
+    xs = set()
+    for i in range(bins + 1):
+        xs.add(mn + dl * float(i))
+        xs.add(mn + float(i) * dl)
+    xs.add(wl - cut * fw)
+    xs.add(wl + cut * fw)
+    return [(x, stark_cumulative(x, wl, 0.5 * fw)) for x in sorted(xs)]
+
+
 def stark_exact(x0, f, a, b):
     """integral of StarkFunction(x0, f) over [a, b] to ~1e-11 (piecewise adaptive quadrature around the cusp)"""
     from scipy.integrate import quad
@@ -557,8 +585,12 @@ def stream_lorentz(run, n):
         ratio = dl / fw if fw > 0 else 0.0
         desc = dict(call='add_lorentzian_line', radiance=R, wavelength=wl, fwhm=fw, min=mn, max=mx, bins=bins, window=cls,
                     bin_width_over_fwhm=ratio, integrator='GaussianQuadrature()')
-        run.k_case('ll', 'll %s %s' % (fs([R, wl, fw]), spec_tokens(s, base)), impl, 1e-12 * abs(R) / dl + 1e-300, desc,
-                   key=(cls, f2b(wl), f2b(fw), bins))
+        if run.src['lorentz_variant'] == 'cdf' and fw > 0:
+            tab = gtable(wl, fw, mn, dl, bins, cut)
+            kline = 'llc %s %s %d %s' % (fs([R, wl, fw]), spec_tokens(s, base), len(tab), fs([t for xg in tab for t in xg]))
+        else:
+            kline = 'll %s %s' % (fs([R, wl, fw]), spec_tokens(s, base))
+        run.k_case('ll', kline, impl, 1e-12 * abs(R) / dl + 1e-300, desc, key=(cls, f2b(wl), f2b(fw), bins))
         added = [a - b for a, b in zip(impl, base)]
         tot = math.fsum(added) * dl
         if fw <= 0:
@@ -773,6 +805,7 @@ def stream_models(run, n):
     rng, ctx = run.rng, run.ctx
     cutG = run.src['cutG']
     kinds = ['gauss', 'mult', 'zt', 'pz', 'zm', 'stark']
+    deferred = []
     for it in range(n):
         kind = kinds[it % len(kinds)]
         e = gen_env(rng)
@@ -817,13 +850,31 @@ def stream_models(run, n):
                         window=cls, B=e['bclass'], T=e['tclass'])
             if sg > 0 and 2 * cutG * sg / dl < 2 ** 29:
                 floor = (K_FLOOR if kind != 'stark' else 1e-11) * abs(R) / dl + 1e-300
-                run.k_case('m-' + kind, model_line(kind, pol, R, e, extra, s, base), impl, floor, desc,
-                           key=(pol, cls, e['bclass'], e['tclass'], f2b(e['wl']), f2b(R)))
+                key = (pol, cls, e['bclass'], e['tclass'], f2b(e['wl']), f2b(R))
+                if kind == 'stark' and run.src['lorentz_variant'] == 'cdf':
+                    # post-fix variant: the driver needs the closed-form cumulative at the bin edges of every Lorentzian
+                    # component; the component centres are asked from the model first (second driver pass below)
+                    deferred.append((pol, R, e, extra, s, base, impl, floor, desc, key))
+                else:
+                    run.k_case('m-' + kind, model_line(kind, pol, R, e, extra, s, base), impl, floor, desc, key=key)
             if kind in ('gauss', 'mult'):
                 break
         if not ok_build:
             continue
         model_oracles(run, kind, e, R, extra, res, base, cls)
+    if deferred:
+        cutL = run.src['cutL']
+        mc = ['mc %s %s %s %s' % (pol, f2b(R), env_tokens(e), fs(extra['cab'])) for pol, R, e, extra, s, base, impl, floor, desc, key in deferred]
+        outs = ctx.driver(mc)
+        for (pol, R, e, extra, s, base, impl, floor, desc, key), o in zip(deferred, outs):
+            vals = [b2f(t) for t in o.split()]
+            trip = []
+            for j in range(0, len(vals), 3):
+                wl_c, fw_c = vals[j + 1], vals[j + 2]
+                if fw_c > 0:
+                    trip += [(wl_c, x, g) for x, g in gtable(wl_c, fw_c, s.min_wavelength, s.delta_wavelength, s.bins, cutL)]
+            run.cmd('gtab %d %s' % (len(trip), fs([t for tr in trip for t in tr])))
+            run.k_case('m-stark', model_line('stark', pol, R, e, extra, s, base), impl, floor, desc, key=key)
 
 
 def model_oracles(run, kind, e, R, extra, res, base, cls):
@@ -1168,6 +1219,9 @@ def run(ctx):
     run_.normC = float(StarkFunction.STARK_NORM_COEFFICIENT)
 
     set_default_rules(run_)
+    ctx.extra['lorentz_variant'] = run_.src['lorentz_variant']
+    if run_.src['lorentz_variant'] == 'cdf':
+        run_.cmd('mode cdf')
     i_consts = len(run_.lines)
     run_.cmd('consts')
     i_coef = len(run_.lines)
